@@ -26,3 +26,62 @@ Theorem C02_candidates_exact :
     (In f (cands ts) <-> lm ts f = true) /\ NoDup (cands ts).
 Proof. intros ts f H1 H2. split; [exact (cands_lm_nowild ts f H1 H2)|exact (cands_nodup ts H2)]. Qed.
 Print Assumptions C02_candidates_exact.
+
+(* ---- the store: refinement of the three tries + indexes + counters to a flat map ---- *)
+From GM Require Import Model.SubTrie Model.SubSpec Oracle.C02O Proofs.SubTrieP.
+
+(* After ANY history of subscribe / unsubscribe / unsubscribe-all by any clients, a lookup
+   for a topic name returns exactly the stored non-shared subscriptions whose filter
+   matches it under MQTT 4.7 (incl. the '$' rule), each once. *)
+Theorem C02_lookup_topic :
+  forall (ops : list op) (t : str) (c : cid),
+    wf_ops ops = true -> t <> [] -> no_wild_levels (split t) = true ->
+    exists l, db_iterate (q_topic t c) (db_run ops) = IOk (some_ents l) /\ NoDup l /\
+      forall c' s, In (c', s) l <->
+        (sp_get (c', [], s_filter s) (spec_run ops) = Some s /\ topic_match t (s_filter s) = true /\ want_client c c').
+Proof. exact lookup_topic_exact. Qed.
+Print Assumptions C02_lookup_topic.
+
+(* lookups by exact filter and by client return exactly what is stored, with the latest options *)
+Theorem C02_lookup_name :
+  forall (ops : list op) (f : str) (c : cid),
+    wf_ops ops = true -> f <> [] ->
+    exists l, db_iterate (q_name f c) (db_run ops) = IOk (some_ents l) /\ NoDup l /\
+      forall c' s, In (c', s) l <-> (sp_get (c', [], f) (spec_run ops) = Some s /\ want_client c c').
+Proof. exact lookup_name_exact. Qed.
+Print Assumptions C02_lookup_name.
+
+Theorem C02_lookup_client :
+  forall (ops : list op) (c : cid),
+    wf_ops ops = true -> c <> [] ->
+    exists l, db_iterate (q_client c) (db_run ops) = IOk (some_ents l) /\ NoDup l /\
+      forall c' s, In (c', s) l <-> (c' = c /\ sp_get (c, [], s_filter s) (spec_run ops) = Some s).
+Proof. exact lookup_client_exact. Qed.
+Print Assumptions C02_lookup_client.
+
+(* the reported counts equal the number of live subscriptions (mod 2^64), the totals the
+   number of first-time subscribes, AlreadyExisted is exact *)
+Theorem C02_counts :
+  forall (ops : list op),
+    wf_ops ops = true ->
+    (st_total (gstats (db_run ops)), st_cur (gstats (db_run ops))) = expect_gstats ops /\
+    (forall c, db_client_stats c (db_run ops) =
+               match expect_cstats ops c with Some (a, b) => Some {| st_total := a; st_cur := b |} | None => None end) /\
+    model_already db_init ops = expect_already [] ops.
+Proof. exact counts_exact. Qed.
+Print Assumptions C02_counts.
+
+Theorem C02_no_panic : forall ops, wf_ops ops = true -> panicked (db_run ops) = false.
+Proof. exact never_panics. Qed.
+Print Assumptions C02_no_panic.
+
+(* non-vacuity: a history with prefix-related filters, a '$' filter, re-subscription and removal *)
+Definition mk_sub (f : str) (q : N) : sub :=
+  {| s_share := []; s_filter := f; s_id := 0; s_qos := q; s_nl := false; s_rap := false; s_rh := 0 |}.
+Example C02_nonvacuous :
+  let c1 := [99; 49]%N in let c2 := [99; 50]%N in
+  let ops := [OSub c1 (mk_sub [97; 47; 35] 1); OSub c2 (mk_sub [97; 47; 43] 0); OSub c1 (mk_sub [97; 47; 35] 2);
+              OSub c2 (mk_sub [36; 115; 47; 35] 1); OUnsub c2 [97; 47; 43]; OSub c2 (mk_sub [97] 1)]%N in
+  wf_ops ops = true /\
+  db_iterate (q_topic [97]%N []) (db_run ops) = IOk (some_ents [(c2, mk_sub [97]%N 1); (c1, mk_sub [97; 47; 35]%N 2)]).
+Proof. vm_compute. split; reflexivity. Qed.
